@@ -114,18 +114,21 @@ fn node(w: &World, depth: usize, trace: Val, nearest: Val) {
 ///  * rejected: the frame adds nothing (children attach to the nearest enabled ancestor), no span event;
 ///  * afterwards the ambient ids are exactly what they were.
 /// With C03's frame discipline (views nest and restore) this step composes to trees of any depth.
-fn span_step(with_event: bool) {
+fn span_step(with_event: bool, amb: u8, sym_ids: bool) {
     let ctxt = ArrCtxt::new();
     let em = TreeEmitter::new();
     let clock = SeqClock { readings: [None; 4], calls: Cell::new(0) };
     let rng = CountRng::new(100);
     let w = World { ctxt: &ctxt, em: &em, clock: &clock, rng: &rng, spans: Cell::new(0), enabled_spans: Cell::new(0) };
     // arbitrary ambient ids
-    let has: bool = kani::any();
-    let t: u128 = kani::any();
-    let sp: u64 = kani::any();
+    // `amb`: 0 = nothing ambient, 1 = ambient ids present, other = symbolic (one harness per case runs in parallel)
+    let has: bool = if amb == 0 { false } else if amb == 1 { true } else { kani::any() };
+    // the quick tier fixes the VALUES of the ambient ids (the logic under test copies them, it does not compute with
+    // them; symbolic 128/64-bit ids cost 4x the time); the thorough tier keeps them symbolic
+    let t: u128 = if sym_ids { kani::any() } else { 0x0af7651916cd43dd8448eb211c80319c };
+    let sp: u64 = if sym_ids { kani::any() } else { 0x00f067aa0ba902b7 };
     let has_parent: bool = kani::any();
-    let pp: u64 = kani::any();
+    let pp: u64 = if sym_ids { kani::any() } else { 5 };
     kani::assume(t != 0 && sp != 0 && pp != 0 && sp != 100 && sp != 101);
     if has {
         *ctxt.cur.borrow_mut() = ArrProps { a: None, b: None, trace: TraceId::from_u128(t), span: SpanId::from_u64(sp),
@@ -156,9 +159,11 @@ fn span_step(with_event: bool) {
         assert!(em.calls.get() == n + if verdict { 1 } else { 0 }, "a rejected span emits nothing");
     });
     assert!(same_view(&ctxt.view(), &before), "when the span ends the ambient ids revert");
-    kani::cover!(has && verdict, "child span of an ambient trace");
-    kani::cover!(!has && verdict, "root span of a fresh trace");
-    kani::cover!(has && !verdict, "rejected span inside a trace");
+    kani::cover!(has && verdict, "opt:child span of an ambient trace");
+    kani::cover!(!has && verdict, "opt:root span of a fresh trace");
+    kani::cover!(has && !verdict, "opt:rejected span inside a trace");
+    kani::cover!(verdict, "enabled");
+    kani::cover!(!verdict, "rejected");
 }
 
 #[kani::proof]
@@ -167,7 +172,7 @@ fn span_step(with_event: bool) {
 #[kani::stub(emit::span::SpanId::try_from_hex, span_hex_unreachable)]
 #[kani::stub(<u128 as emit_core::value::FromValue>::from_value, u128_from_value_unreachable)]
 #[kani::stub(<u64 as emit_core::value::FromValue>::from_value, u64_from_value_unreachable)]
-pub fn c04_q_span_step_plain() { span_step(false); }
+pub fn c04_q_span_step_fresh() { span_step(false, 0, false); }
 
 #[kani::proof]
 #[kani::unwind(13)]
@@ -175,7 +180,15 @@ pub fn c04_q_span_step_plain() { span_step(false); }
 #[kani::stub(emit::span::SpanId::try_from_hex, span_hex_unreachable)]
 #[kani::stub(<u128 as emit_core::value::FromValue>::from_value, u128_from_value_unreachable)]
 #[kani::stub(<u64 as emit_core::value::FromValue>::from_value, u64_from_value_unreachable)]
-pub fn c04_t_span_step_with_event() { span_step(true); }
+pub fn c04_q_span_step_in_trace() { span_step(false, 1, false); }
+
+#[kani::proof]
+#[kani::unwind(13)]
+#[kani::stub(emit::span::TraceId::try_from_hex, trace_hex_unreachable)]
+#[kani::stub(emit::span::SpanId::try_from_hex, span_hex_unreachable)]
+#[kani::stub(<u128 as emit_core::value::FromValue>::from_value, u128_from_value_unreachable)]
+#[kani::stub(<u64 as emit_core::value::FromValue>::from_value, u64_from_value_unreachable)]
+pub fn c04_t_span_step_with_event() { span_step(true, 2, true); }
 
 /// ids drawn for new spans: non-zero, child keeps the trace id, parent link = creator's span id.
 #[kani::proof]
